@@ -134,6 +134,7 @@ fn c06_plan(cfg: &Cfg) -> UnaryPlan {
 
 pub fn run(cfg: &Cfg) -> Option<(Part, Value, bool)> {
     ROOT_FINDINGS_COUNT.store(cfg.prop == "C03", std::sync::atomic::Ordering::Relaxed);
+    STRICT_BATTERY.store(cfg.prop == "C03" || cfg.prop == "C18", std::sync::atomic::Ordering::Relaxed);
     match cfg.prop.as_str() {
         "C01" => {
             let (p, b, e) = arith::run_bin_plan(cfg, &c01_plan(cfg));
@@ -167,6 +168,8 @@ pub fn run(cfg: &Cfg) -> Option<(Part, Value, bool)> {
 /// holds on this input, 2 on a malformed file.
 pub fn replay(j: &Value, profile: &'static str, dbg: bool) -> i32 {
     let cfg = Cfg { prop: j["property"].as_str().unwrap_or("?").to_string(), tier: Tier::Quick, profile, dbg, budget_s: 600.0, start: Instant::now() };
+    ROOT_FINDINGS_COUNT.store(cfg.prop == "C03", std::sync::atomic::Ordering::Relaxed);
+    STRICT_BATTERY.store(cfg.prop == "C03" || cfg.prop == "C18", std::sync::atomic::Ordering::Relaxed);
     let root = j["root"].as_str().unwrap_or("");
     let ops: Vec<String> = j["ops"].as_array().map(|a| a.iter().filter_map(|v| v.as_str().map(|s| s.to_string())).collect()).unwrap_or_default();
     let check = j["check"].as_str().unwrap_or("state");
